@@ -315,6 +315,21 @@ func c01SmudgeObsOf(out []byte, err string) c01SmudgeObs {
 	return o
 }
 
+// quick tier: the real-binary parts leave out most of the all-zero inputs (same sizes as bin/text); thorough: all inputs
+func (e *c01Env) e2eInputs() []c01Input {
+	if e.thorough {
+		return e.inputs
+	}
+	var r []c01Input
+	for _, in := range e.inputs {
+		if in.Kind == "zero" && in.Name != "empty" && in.Name != "zero1024" && in.Name != "zero65517" {
+			continue
+		}
+		r = append(r, in)
+	}
+	return r
+}
+
 // ---------------------------------------------------------------------------------------------------------
 // part: oneshot (real binary, real pipe, exact chunking)
 
@@ -353,8 +368,9 @@ func (e *c01Env) oneshotChunkings(in c01Input, wt c01WT, ext string) []c01Chunki
 func (e *c01Env) partOneshot() c01Part {
 	exts := []string{"", "chain"}
 	lens := []int{0, 100, 1024, -1}
+	ins := e.e2eInputs()
 	run := func(x *vx.X) vx.Result {
-		in := e.inputs[x.In(len(e.inputs))]
+		in := ins[x.In(len(ins))]
 		n := len(in.Data)
 		ext := exts[x.In(len(exts))]
 		wts := c01WTStates(n, lens)
@@ -486,8 +502,9 @@ func c01PksFor(n int) []c01Pk {
 func (e *c01Env) partFilterProcess() c01Part {
 	exts := []string{"", "rot"}
 	lens := []int{0, 100, 1024, -1}
+	ins := e.e2eInputs()
 	run := func(x *vx.X) vx.Result {
-		in := e.inputs[x.In(len(e.inputs))]
+		in := ins[x.In(len(ins))]
 		n := len(in.Data)
 		ext := exts[x.In(len(exts))]
 		wts := c01WTStates(n, lens)
@@ -1013,7 +1030,7 @@ func c01Main(prop string) {
 	only := os.Getenv("VERIF_ONLY")
 	var vparts []vx.Part
 	perPart := map[string]interface{}{}
-	deadline := c.DeadlineAfter(8*time.Minute, 40*time.Minute)
+	deadline := c.DeadlineAfter(6*time.Minute, 30*time.Minute)
 	for _, p := range parts {
 		if only != "" && only != p.name {
 			continue
@@ -1061,6 +1078,11 @@ func c01Describe(c *vx.Check, e *c01Env) {
 	c.Bounds["packet_payload_sizes"] = "1,1023,1024,1025,65516,1/65516"
 	c.Bounds["extension_configurations"] = c01ExtKinds
 	c.Bounds["merge_cases"] = len(c01MergeCases())
+	if !e.thorough {
+		c.Bounds["quick_tier_reductions"] = "inproc: with an extension configured only worktree {absent, same, empty file, longer+1}, <=1 cut point (+1 byte per read), separate EOF; " +
+			"oneshot/filterprocess: all-zero inputs only for sizes 0,1024,65517; oneshot: <=1 cut point, and with a file at the path or an extension only {single, cut@1, cut@1024}; extension chain only without a file; " +
+			"filterprocess: extension rot only without a file; all 6 packetisations only for file absent / empty, else {65516,1024}; git: 14 inputs, no extension. thorough: full products"
+	}
 }
 
 func TestVerifC01(t *testing.T) { c01Main("C01") }
